@@ -8,7 +8,10 @@ func genC12(r *rng, thorough bool) {
 		n = 4000
 	}
 	fl := []string{"a", "b", "a,b", "b,a", "x", "nosuch", "a,nosuch", "c,a,b", "a,a", "y,x,c,b,a", "b,b,a"}
-	emit := func(argv []string, rs []record) { gen("verbs " + joinFlags(argv) + " " + encodeRecords(rs)) }
+	emit := func(argv []string, rs []record) {
+		gen("verbs " + joinFlags(argv) + " " + encodeRecords(rs))
+		gen("verbsx " + joinFlags(argv) + " " + encodeRecords(rs))
+	}
 	for i := 0; i < n; i++ {
 		rs := verbStream(r, 8)
 		f := r.pick(fl)
